@@ -102,7 +102,13 @@ class AbsClass:
         raise Undecided(f'abstract class {self.name} has no model for attribute {name}')
 
     def hasattr(self, interp, obj, name):
-        return name in self.methods or name in self.attrs or name in self.fields
+        if name in self.methods or name in self.attrs or name in self.fields:
+            return True
+        if name in getattr(self, 'absent', ()):
+            return False
+        # a model is partial: a name it does not mention is not thereby absent from the real object (hasattr(sock, 'sendmsg') on the socket model once
+        # answered False and sent the verification down the fall-back branch only)
+        raise Undecided(f'hasattr(abstract {self.name}, {name!r}): the model does not say whether the real object has it (declare it in methods/attrs or in .absent)')
 
     def setattr(self, interp, obj, name, value, node):
         if name in self.fields:
